@@ -245,6 +245,8 @@ class SymText:
         s.kind, s.payload, s.up, s.lo = kind, payload, upper, lower
 
     def upper(s):
+        if s.kind == "bytesrepr":
+            raise Unsupported("case mapping of the text rendering of symbolic bytes")
         return SymText(s.kind, s.payload, upper=True)
 
     def lower(s):
@@ -300,8 +302,8 @@ class SymText:
         raise Unsupported("len of a symbolic numeral")
 
     def __bool__(s):
-        if s.kind in ("dec", "hexnum"):
-            return True  # a numeral is never the empty string
+        if s.kind in ("dec", "hexnum", "bytesrepr"):
+            return True  # a numeral / the b'..' rendering is never the empty string
         return len(s.payload) > 0
 
     def __contains__(s, needle):
